@@ -68,8 +68,11 @@ def blob_strategy():
     d = st.integers(0, len(c13_blobs.DATA) - 1)
     op = st.one_of(st.tuples(st.just('foreign'), st.integers(0, 5), d, st.sampled_from(['finish', 'abort', 'abort', 'vote-abort', 'vote-abort'])),
                    st.tuples(st.just('write'), st.integers(0, 1), st.sampled_from(['w', 'a']), d), st.tuples(st.just('commit')),
-                   st.tuples(st.just('abort')), st.tuples(st.just('observe'), st.booleans())).map(list)
-    return st.fixed_dictionaries({'mode': st.just('blob'), 'kind': st.sampled_from(['bmap', 'bmap', 'fs', 'bfs']),
+                   st.tuples(st.just('abort')), st.tuples(st.just('observe'), st.booleans()),
+                   # (file storage with a blob directory) an undo transaction that is refused at the vote after the storage
+                   # has put the restored blob files in place; and one that commits
+                   st.tuples(st.just('undo'), st.sampled_from([4, 5, 4, 0]))).map(list)
+    return st.fixed_dictionaries({'mode': st.just('blob'), 'kind': st.sampled_from(['bmap', 'bmap', 'fs', 'fs', 'bfs']),
                                   'ops': st.lists(op, min_size=2, max_size=8)})
 
 
